@@ -176,15 +176,25 @@ example : parseRow 44 (writeRow 44 34 [.str [104, 34, 105, 44], .str [], .str [9
     = [[104, 34, 105, 44], [], [97, 59, 98]] := by decide
 
 /-- **csv_table_roundtrip.**  For every non-empty list of identifier column names and every table whose rows have
-    one cell per column — cells being strings without line breaks that do not spell a number (any mix of
+    one cell per column — cells being NUL-free strings without line breaks that do not spell a number (any mix of
     `, ; " '` and blanks, empty strings; the file format cannot tell a string that spells a number from the
-    number) and number texts — the file written by `columns(cols)` followed by `<<` of every cell, read by a
-    fresh `TabularDataFile`, gives back the column names and, row for row and cell for cell, the strings
-    written and, for the numbers, `myatof` of the text written (whose exact value is `csv_number_exact_Q`). -/
+    number) and number texts — the file written by `columns(cols)` followed by `<<` of every cell, **or** by `<<`
+    of every row as an array `Var` (equal rows, e.g. the same array sent again, included: the writer copies the
+    array, 23ed28f), read by a fresh `TabularDataFile`, gives back the column names and, row for row and cell for
+    cell, the strings written and, for the numbers, `myatof` of the text written (whose exact value is
+    `csv_number_exact_Q`). -/
 theorem csv_table_roundtrip (cols : List Bytes) (hne : cols ≠ []) (hcols : ∀ n ∈ cols, ColOK n)
     (rows : List (List Cell)) (hrows : ∀ r ∈ rows, r.length = cols.length ∧ ∀ c ∈ r, CellWF c) :
-    Csv.readTable (Csv.writeTable cols rows.flatten) = { columns := cols, rows := rows.map (·.map expected) } :=
-  AslProofs.Csv.table_roundtrip cols hne hcols rows hrows
+    Csv.readTable (Csv.writeItems cols (rows.flatten.map .cell)) = { columns := cols, rows := rows.map (·.map expected) } ∧
+    Csv.readTable (Csv.writeItems cols (rows.map .arr)) = { columns := cols, rows := rows.map (·.map expected) } := by
+  have hpos : 0 < cols.length := List.length_pos_iff.mpr hne
+  have hrows' : ∀ r ∈ rows, r.length = cols.length ∧ r ≠ [] ∧ ∀ c ∈ r, CellWF c := by
+    intro r hr
+    obtain ⟨h1, h2⟩ := hrows r hr
+    refine ⟨h1, ?_, h2⟩
+    intro e; subst e; simp at h1; omega
+  rw [AslProofs.Csv.writeItems_cells, AslProofs.Csv.writeItems_arrays cols rows hrows']
+  exact ⟨AslProofs.Csv.table_roundtrip cols hne hcols rows hrows, AslProofs.Csv.table_roundtrip cols hne hcols rows hrows⟩
 
 /-- the column name `x` and the string cell `a,"b` meet the hypotheses -/
 example : ColOK [120] ∧ CellWF (.str [97, 44, 34, 98]) := by
